@@ -271,21 +271,34 @@ def run_case(chk: Check, sc: Scratch, idx: int, handlers, hl_name: str, nhealthy
     try:
         kinds = "+".join(sorted(k for k, _ in faults)) + ("+linkfile-" + linkmode if linkmode else "") + \
             ("+named" + suffix if suffix else "")
-        for view in VIEWS:
-            ents, resp, v = listing_entries(chk, site, view, sel)
-            sample = {"handler": hl_name, "dir": sel, "faults": faults, "healthy": healthy, "view": view,
-                      "reply": resp.data[:200], "log": resp.log[:3], "escaped": resp.escaped[:1]}
-            chk.count("faulted_listings")
-            if ents is None:
-                what = "exception-escaped" if resp.escaped else ("empty-reply" if not resp.data else "error-reply")
-                chk.witness("C12/directory-lost:%s:%s" % (kinds, what), sample)
-                return
-            got = [x for x in c06.normalize(view, ents, False) if not (len(x) > 2 and x[2] in faulty_sels)]
-            if got != refs[view]:
-                missing = [x for x in refs[view] if x not in got]
-                chk.witness("C12/healthy-entries-%s:%s" % ("missing" if missing else "changed", kinds),
-                            dict(sample, missing=missing[:3], got=got[:4], want=refs[view][:4]))
-                return
+        def judge(site_, tag):
+            for view in VIEWS:
+                ents, resp, v = listing_entries(chk, site_, view, sel)
+                sample = {"handler": hl_name, "dir": sel, "faults": faults, "healthy": healthy, "view": view, "pass": tag,
+                          "reply": resp.data[:200], "log": resp.log[:3], "escaped": resp.escaped[:1]}
+                chk.count("faulted_listings")
+                if ents is None:
+                    what = "exception-escaped" if resp.escaped else ("empty-reply" if not resp.data else "error-reply")
+                    chk.witness("C12/directory-lost:%s:%s%s" % (kinds, what, tag), sample)
+                    return False
+                got = [x for x in c06.normalize(view, ents, False) if not (len(x) > 2 and x[2] in faulty_sels)]
+                if got != refs[view]:
+                    missing = [x for x in refs[view] if x not in got]
+                    chk.witness("C12/healthy-entries-%s:%s%s" % ("missing" if missing else "changed", kinds, tag),
+                                dict(sample, missing=missing[:3], got=got[:4], want=refs[view][:4]))
+                    return False
+            return True
+
+        if not judge(site, ""):
+            return
+        if idx % 3 == 0:
+            # the same directory with the listing cache on: listed, and listed again within the cache's lifetime
+            site.close()
+            site = driver.Site(root, handlers=handlers, overrides={("handlers.dir.DirHandler", "cachetime"): "180"})
+            for tag in (":cache-on-first", ":cache-on-again"):
+                chk.count("faulted_listings_with_cache_on")
+                if not judge(site, tag):
+                    return
         if inj.open_errors and inj.hits == 0:
             chk.count("open_faults_on_entries_nobody_opens")    # e.g. a .txt file: listed without being read
         if (inj.phantoms or inj.stat_errors or inj.vanish_after_stat) and inj.hits == 0:
